@@ -214,11 +214,21 @@ class Module:
         with values kept as ast when they are not constants."""
         f = self.func(qual)
         rets = [n for n in ast.walk(f) if isinstance(n, ast.Return)]
-        if len(rets) != 1 or not isinstance(rets[0].value, ast.Subscript) or not isinstance(
-            rets[0].value.value, ast.Dict
-        ):
+        d = None
+        if len(rets) == 1 and isinstance(rets[0].value, ast.Subscript) and isinstance(rets[0].value.value, ast.Dict):
+            d = rets[0].value.value
+        elif len(rets) == 1:
+            # the table may be a module-level constant that the function indexes (NAME[arg] / NAME.get(arg))
+            v = rets[0].value
+            nm = v.value if isinstance(v, ast.Subscript) and isinstance(v.value, ast.Name) else (
+                v.func.value if isinstance(v, ast.Call) and isinstance(v.func, ast.Attribute) and v.func.attr == "get" and isinstance(v.func.value, ast.Name) else None)
+            if nm is not None:
+                for st in self.tree.body:
+                    tgt = st.targets[0] if isinstance(st, ast.Assign) and len(st.targets) == 1 else (st.target if isinstance(st, ast.AnnAssign) else None)
+                    if isinstance(tgt, ast.Name) and tgt.id == nm.id and isinstance(getattr(st, "value", None), ast.Dict):
+                        d = st.value
+        if d is None:
             raise AnalysisError(f"{self.rel}::{qual} is no longer a literal table lookup")
-        d = rets[0].value.value
         out = {}
         for k, v in zip(d.keys, d.values):
             if k is None:
